@@ -153,3 +153,19 @@ func Ints(m M, k string) []int {
 	}
 	return out
 }
+
+// Strs reads a list of strings whether it came from JSON or from Go code.
+func Strs(m M, k string) []string {
+	var out []string
+	switch v := m[k].(type) {
+	case []string:
+		return v
+	case []interface{}:
+		for _, x := range v {
+			if s, ok := x.(string); ok {
+				out = append(out, s)
+			}
+		}
+	}
+	return out
+}
